@@ -183,7 +183,11 @@ bool DerefExpression::GetReference(ScriptFrame& frame, bool init_dict, Value *pa
 	if (operand.GetCode() != ResultOK)
 		return false;
 
-	Reference::Ptr ref = operand.GetValue();
+	Object::Ptr obj = operand.GetValue();
+	Reference::Ptr ref = dynamic_pointer_cast<Reference>(obj);
+
+	if (!ref)
+		BOOST_THROW_EXCEPTION(ScriptError("Invalid reference specified.", GetDebugInfo()));
 
 	*parent = ref->GetParent();
 	*index = ref->GetIndex();
